@@ -83,3 +83,9 @@ Corollary lex_roundtrip_kind F ia v w :
   lex_parse ia F (lex_fmt F v) = LOk v -> lex_parse ia F (lex_fmt F v) = LOk w ->
   nv_is_term w = nv_is_term v /\ nv_is_sentence w = nv_is_sentence v /\ nv_is_task w = nv_is_task v.
 Proof. intros H1 H2. rewrite H1 in H2. injection H2 as ->. auto. Qed.
+
+(* Han with the decidable form of the unambiguity conditions (what the harness filters by) *)
+Theorem han_roundtrip_b v :
+  vocab_ok LEX_HAN std_alnum v = true -> unamb_top_b LEX_HAN v = true -> bare_atom v = false ->
+  lex_parse std_alnum LEX_HAN (lex_fmt LEX_HAN v) = LOk v.
+Proof. intros Hv Hun Hb. apply han_roundtrip; auto. now apply unamb_top_b_sound. Qed.
